@@ -59,21 +59,24 @@ def register_forward_ref(
     if not isinstance(annotation, ForwardRef):
         return
     evaluated = None
-    if annotation.__forward_evaluated__:
-        evaluated = True
-        annotation = annotation.__forward_value__
-    elif global_vars:
+    if global_vars:
+        # also for a ForwardRef that is already evaluated: typing memoises List['B'] process-wide and
+        # with it the ForwardRef inside, so its value may have been evaluated for another module or
+        # before the name was bound again - the name is looked up in the namespace of *this* declaration
         ref = annotation
         try:
             annotation = evaluate_forward_ref(annotation, global_vars, None)
         except NameError:
-            # ignore for now
+            # ignore for now: registered below and resolved, in this namespace, at the first parse
             pass
         else:
             evaluated = True
             if force_clear:
                 ref.__forward_evaluated__ = False
                 ref.__forward_value__ = None
+    elif annotation.__forward_evaluated__:
+        evaluated = True
+        annotation = annotation.__forward_value__
     if evaluate_only:
         return annotation
     if not evaluated:
